@@ -219,6 +219,7 @@ MUTANTS += [
     M("weights only for the default size", _S, "log_w = self.log_weights(beta)\n        w = to_numpy(self.xp.exp(log_w - logsumexp(log_w)))\n        idx = rng.choice(len(self.x), size=n_samples, replace=True, p=w)", "w = None\n        if n_samples == len(self.x):\n            log_w = self.log_weights(beta)\n            w = to_numpy(self.xp.exp(log_w - logsumexp(log_w)))\n        idx = rng.choice(len(self.x), size=n_samples, replace=True, p=w)", "C09.p"),
 ]
 NEUTRALS = [
+    __import__("aspire_sa.rules.smcloop", fromlist=["HELPER_NEUTRAL"]).HELPER_NEUTRAL,
     M("generator fallback written with or", _S, "if rng is None:\n            rng = np.random.default_rng()\n        if n_samples is None:", "rng = rng or np.random.default_rng()\n        if n_samples is None:"),
     M("index via temporary weights", _S, "w = to_numpy(self.xp.exp(log_w - logsumexp(log_w)))", "lse = logsumexp(log_w)\n        w = to_numpy(self.xp.exp(log_w - lse))"),
     M("constructor keywords reordered", _S, "log_q=self.log_q[idx],\n            beta=beta,\n            dtype=self.dtype,", "beta=beta,\n            log_q=self.log_q[idx],\n            dtype=self.dtype,"),
